@@ -234,7 +234,11 @@ fn long_cases() -> Vec<(Case, usize)> {
 }
 
 fn judge_b(c: &Case, budget: usize, l: &mut Local) {
-    let text = text_of(&c.prog);
+    judge_text(c, text_of(&c.prog), budget, l)
+}
+
+/// `text`: the program as written (the model reads `c.prog`, whose names are spelled out in full)
+fn judge_text(c: &Case, text: String, budget: usize, l: &mut Local) {
     let mdefs: Vec<(String, RVal)> = c.defines.iter().map(|(n, d)| (n.clone(), d.model(false))).collect();
     let o = ifworld(&c.prog, &mdefs);
     let mut opts = run::Opts::iters(budget);
@@ -262,6 +266,81 @@ fn judge_b(c: &Case, budget: usize, l: &mut Local) {
         });
     }
     l.sample(|| json!({"family": c.family, "coord": c.coord, "program": text, "defines": c.defines.iter().map(|(n, d)| format!("-d{}{}", n, d.spelling())).collect::<Vec<_>>(), "expected": exp}));
+}
+
+// ---------------------------------------------------------------------------------------------
+// family `relative`: the constants a condition reads are children of a symbol and are written relative to it
+// (`.wide` for `config.wide`), in the constant that feeds the condition and in the condition itself; a global constant
+// of the same last name exists or not. The model reads the program with every name spelled out in full.
+
+fn relative_cases() -> Vec<(Case, String)> {
+    let mut out = vec![];
+    let m = |k: u8| Item::Marker(k);
+    let conds: Vec<(&str, E)> = vec![
+        ("stride", eq(v("config.stride"), int(4))),
+        ("wide", v("config.wide")),
+        ("not-wide", not(v("config.wide"))),
+        ("stride-and-twin", and(eq(v("config.stride"), int(4)), v("wide"))),
+    ];
+    for twin in 0..5usize {
+        // 0 none, 1 `wide = false` first, 2 `wide = true` first, 3 `wide = false` last, 4 `wide = true` last
+        for parent_is_label in [true, false] {
+            for sub_wide in [true, false] {
+                for (cname, cond) in &conds {
+                    if *cname == "stride-and-twin" && twin == 0 {
+                        continue;
+                    }
+                    for away in [false, true] {
+                        for rel_const in [false, true] {
+                            for rel_cond in [false, true] {
+                                if rel_cond && away {
+                                    continue;
+                                }
+                                for define in 0..3usize {
+                                    let mut prog = vec![];
+                                    if twin == 1 || twin == 2 {
+                                        prog.push(konst("wide", E::Bool(twin == 2)));
+                                    }
+                                    prog.push(m(0x10));
+                                    prog.push(if parent_is_label { label("config") } else { konst("config", int(1)) });
+                                    prog.push(Item::Sub("config".into(), "wide".into(), E::Bool(sub_wide)));
+                                    prog.push(Item::Sub("config".into(), "stride".into(), E::Tern(Box::new(v("config.wide")), Box::new(int(4)), Box::new(int(2)))));
+                                    if away {
+                                        prog.push(label("other"));
+                                    }
+                                    prog.push(Item::If(vec![(cond.clone(), vec![m(0x44)])], Some(vec![m(0x22)])));
+                                    prog.push(usen("config.stride"));
+                                    if twin == 3 || twin == 4 {
+                                        prog.push(konst("wide", E::Bool(twin == 4)));
+                                    }
+                                    let defines: Vec<(String, DV)> = match define {
+                                        0 => vec![],
+                                        1 => vec![("config.wide".to_string(), DV::Bool(!sub_wide))],
+                                        _ => {
+                                            if twin == 0 {
+                                                continue;
+                                            }
+                                            vec![("wide".to_string(), DV::Bool(sub_wide))]
+                                        }
+                                    };
+                                    // the text: relative spellings where the writer is inside `config`
+                                    let mut text = String::new();
+                                    for line in text_of(&prog).lines() {
+                                        let t = if (rel_const && line.starts_with(".stride")) || (rel_cond && line.starts_with("#if")) { line.replace("config.", ".") } else { line.to_string() };
+                                        text += &t;
+                                        text.push('\n');
+                                    }
+                                    let coord = format!("twin{} parent_label{} sub_wide{} cond-{} away{} rel_const{} rel_cond{} define{}", twin, parent_is_label, sub_wide, cname, away, rel_const, rel_cond, define);
+                                    out.push((Case { family: "relative", coord, prog, defines }, text));
+                                }
+                            }
+                        }
+                    }
+                }
+            }
+        }
+    }
+    out
 }
 
 // ---------------------------------------------------------------------------------------------
@@ -977,6 +1056,10 @@ pub fn run(ctx: &Ctx) -> Report {
     }
     if want("drive") {
         rep.absorb(par_cases(&drives, judge_drive));
+    }
+    if want("relative") {
+        let rels = relative_cases();
+        rep.absorb(par_cases(&rels, |(c, text), l| judge_text(c, text.clone(), 30, l)));
     }
     if want("long") {
         let longs = long_cases();
